@@ -17,6 +17,7 @@ pub(crate) fn derive(input: &DeriveInput) -> TokenStream {
         Err(err) => return err.to_compile_error(),
     };
     let num_fields = fields.len();
+    let names = field_names(&fields);
 
     quote! {
         impl #impl_generics ::liquid::ObjectView for #ident #ty_generics #where_clause {
@@ -31,7 +32,7 @@ pub(crate) fn derive(input: &DeriveInput) -> TokenStream {
             fn keys<'liquid_derive_k>(&'liquid_derive_k self) -> Box<dyn Iterator<Item = ::liquid::model::KStringCow<'liquid_derive_k>> + 'liquid_derive_k> {
                 let mut keys = Vec::with_capacity(#num_fields);
                 #(
-                    keys.push(::liquid::model::KStringCow::from_static(stringify!(#fields)));
+                    keys.push(::liquid::model::KStringCow::from_static(#names));
                 )*
                 Box::new(keys.into_iter())
             }
@@ -48,7 +49,7 @@ pub(crate) fn derive(input: &DeriveInput) -> TokenStream {
                 let mut values = Vec::<(::liquid::model::KStringCow<'liquid_derive_k>, &'liquid_derive_k dyn ::liquid::ValueView)>::with_capacity(#num_fields);
                 #(
                     values.push((
-                        ::liquid::model::KStringCow::from_static(stringify!(#fields)),
+                        ::liquid::model::KStringCow::from_static(#names),
                         &self.#fields,
                     ));
                 )*
@@ -58,7 +59,7 @@ pub(crate) fn derive(input: &DeriveInput) -> TokenStream {
             fn contains_key(&self, index: &str) -> bool {
                 match index {
                     #(
-                        stringify!(#fields) => true,
+                        #names => true,
                     )*
                     _ => false,
                 }
@@ -67,7 +68,7 @@ pub(crate) fn derive(input: &DeriveInput) -> TokenStream {
             fn get<'liquid_derive_s>(&'liquid_derive_s self, index: &str) -> Option<&'liquid_derive_s dyn ::liquid::ValueView> {
                 match index {
                     #(
-                        stringify!(#fields) => Some(&self.#fields),
+                        #names => Some(&self.#fields),
                     )*
                     _ => None,
                 }
@@ -91,6 +92,7 @@ pub(crate) fn core_derive(input: &DeriveInput) -> TokenStream {
         Err(err) => return err.to_compile_error(),
     };
     let num_fields = fields.len();
+    let names = field_names(&fields);
 
     quote! {
         impl #impl_generics ::liquid_core::ObjectView for #ident #ty_generics #where_clause {
@@ -105,7 +107,7 @@ pub(crate) fn core_derive(input: &DeriveInput) -> TokenStream {
             fn keys<'liquid_derive_k>(&'liquid_derive_k self) -> Box<dyn Iterator<Item = ::liquid_core::model::KStringCow<'liquid_derive_k>> + 'liquid_derive_k> {
                 let mut keys = Vec::with_capacity(#num_fields);
                 #(
-                    keys.push(::liquid_core::model::KStringCow::from_static(stringify!(#fields)));
+                    keys.push(::liquid_core::model::KStringCow::from_static(#names));
                 )*
                 Box::new(keys.into_iter())
             }
@@ -122,7 +124,7 @@ pub(crate) fn core_derive(input: &DeriveInput) -> TokenStream {
                 let mut values = Vec::<(::liquid_core::model::KStringCow<'liquid_derive_k>, &'liquid_derive_k dyn ::liquid_core::ValueView)>::with_capacity(#num_fields);
                 #(
                     values.push((
-                        ::liquid_core::model::KStringCow::from_static(stringify!(#fields)),
+                        ::liquid_core::model::KStringCow::from_static(#names),
                         &self.#fields,
                     ));
                 )*
@@ -132,7 +134,7 @@ pub(crate) fn core_derive(input: &DeriveInput) -> TokenStream {
             fn contains_key(&self, index: &str) -> bool {
                 match index {
                     #(
-                        stringify!(#fields) => true,
+                        #names => true,
                     )*
                     _ => false,
                 }
@@ -141,7 +143,7 @@ pub(crate) fn core_derive(input: &DeriveInput) -> TokenStream {
             fn get<'liquid_derive_s>(&'liquid_derive_s self, index: &str) -> Option<&'liquid_derive_s dyn ::liquid_core::ValueView> {
                 match index {
                     #(
-                        stringify!(#fields) => Some(&self.#fields),
+                        #names => Some(&self.#fields),
                     )*
                     _ => None,
                 }
@@ -188,4 +190,11 @@ pub(crate) fn get_fields(data: &Data) -> Result<Vec<&Ident>> {
         .iter()
         .map(|field| field.ident.as_ref().expect("Fields are named."))
         .collect())
+}
+
+/// The keys the fields are exposed under: the field names without the `r#` of a raw identifier
+/// (`r#type` is the key `type`, as it is for serde).
+pub(crate) fn field_names(fields: &[&Ident]) -> Vec<String> {
+    use syn::ext::IdentExt;
+    fields.iter().map(|field| field.unraw().to_string()).collect()
 }
